@@ -46,10 +46,9 @@ pub proof fn lemma_chain_next<C: ContentAddrStore>(s: UnsealedState<C>, n: Unsea
         else { assert(s.history@.contains_key(h)); if h.0 > 0 { assert(s.history@.contains_key(BlockHeight((h.0 - 1) as u64))); } }
     }
 }
-// ---- batch application as seen by block application (the predicates are refined by unit `apply` once apply_tx_batch_impl
-// is under contract; here only their frame consequences are used)
-pub uninterp spec fn batch_env<C: ContentAddrStore>(s: UnsealedState<C>, txx: Seq<Transaction>) -> bool;   // arithmetic envelopes of the batch
-pub uninterp spec fn batch_core<C: ContentAddrStore>(s: UnsealedState<C>, txx: Seq<Transaction>, r: UnsealedState<C>) -> bool;
+// ---- batch application as seen by block application: batch_env / batch_core are DEFINED in lemmas/batch_def.rs (unit `batch`,
+// which proves apply_tx_batch_impl against them) and declared uninterpreted in lemmas/batch_opaque.rs for the units that only
+// pass them along (here only their frame consequences are used)
 pub open spec fn batch_pre<C: ContentAddrStore>(s: UnsealedState<C>, txx: Seq<Transaction>) -> bool { state_inv(s) && chain_ok(s) && batch_env(s, txx) }
 pub open spec fn batch_result<C: ContentAddrStore>(s: UnsealedState<C>, txx: Seq<Transaction>, r: UnsealedState<C>) -> bool {
     batch_core(s, txx, r) && r.network == s.network && r.height == s.height && r.history == s.history && r.pools == s.pools
